@@ -83,7 +83,7 @@ def normalise(asm):
 
 
 def gcc_asm(text, opt):
-    r = subprocess.run(["gcc", "-std=gnu11", "-w", "-Werror=incompatible-pointer-types", "-Werror=discarded-qualifiers", "-fno-builtin", opt, "-S", "-o", "-", "-x", "c", "-"], input=text,
+    r = subprocess.run(["gcc", "-std=gnu11", "-Werror=incompatible-pointer-types", "-fno-builtin", opt, "-S", "-o", "-", "-x", "c", "-"], input=text,
                        capture_output=True, text=True)
     if r.returncode:
         return None, r.stderr[:400]
